@@ -201,6 +201,7 @@ func runC17(p *Prog, r *Report, tier string) {
 		}
 	}
 
+	checkDecodingModeDefault(p, r, "R-MODE.default")
 	checkInfoElementImmutable(p, r, "R-OWNER.info-element")
 	checkSpecifierFreshness(p, r, "R-SIBLING.specifier-fresh")
 	checkReverseRegistration(p, r, "R-TABLE.reverse")
@@ -527,5 +528,58 @@ func checkReverseRegistration(p *Prog, r *Report, rule string) {
 	})
 	if n < 2 {
 		r.Undecided(rule, fnKey(rg)+": reverse map updates", p.pos(rg.Pos()), fmt.Sprintf("found %d", n))
+	}
+}
+
+// checkDecodingModeDefault: "strict is the default": the decoding mode a collecting process works with is never the empty
+// string - every value stored into CollectingProcess.decodingMode is a mode constant, or the caller's DecodingMode on a
+// way in on which it is known not to be empty (the default is applied before the process is built). With an empty
+// mode none of the three mode tests holds: unknown elements are accepted as if a lenient mode had been chosen.
+func checkDecodingModeDefault(p *Prog, r *Report, rule string) {
+	n := 0
+	for _, f := range p.RepoFns {
+		if !keyInPkg(fnKey(f), "pkg/collector") {
+			continue
+		}
+		eachInstr(f, func(in ssa.Instruction) {
+			st, ok := in.(*ssa.Store)
+			if !ok {
+				return
+			}
+			if tn, fn, _, ok := fieldOf(st.Addr); !ok || tn+"."+fn != "pkg/collector.CollectingProcess.decodingMode" {
+				return
+			}
+			n++
+			why := ""
+			for _, lf := range valueLeaves(st.Val, in.Block(), 4) {
+				v := stripChange(lf.V)
+				if cv, ok := v.(*ssa.Convert); ok {
+					v = stripChange(cv.X)
+				}
+				if s, ok := constString(v); ok {
+					if s == "" {
+						why = "the empty mode is stored"
+					}
+					continue
+				}
+				// a value taken from the caller's input: must be known non-empty on this way in
+				nonEmpty := false
+				for _, fct := range lf.Facts {
+					if fct.X == lf.V || fct.X == v {
+						if s, ok := constString(fct.Y); ok && s == "" && fct.Op == token.NEQ {
+							nonEmpty = true
+						}
+					}
+				}
+				if !nonEmpty {
+					why = "the caller's DecodingMode is stored without the default being applied (it may be empty)"
+				}
+			}
+			r.Check(why == "", rule, fnKey(f)+": value stored into decodingMode", p.instrPos(in), "a mode constant, or the caller's mode where it is known to be non-empty",
+				why+": a collector created without an explicit mode is documented to be strict, but with an empty mode no mode test holds and templates with unknown elements are accepted", true)
+		})
+	}
+	if n == 0 {
+		r.Undecided(rule, "anchor: stores to CollectingProcess.decodingMode", "pkg/collector/process.go", "none found")
 	}
 }
